@@ -325,19 +325,10 @@ def oracle_case(c, orc, idx, case, ri, traj):
     # ---- NaN / Inf anywhere in outputs or states
     flat = [x for r in outs for x in r] + list(final)
     if any(isbad(x) for x in flat):
-        key = None
         t0 = min([t for r in outs for t, x in enumerate(r) if isbad(x)] + [n - 1 if n else 0])
-        if m == 'StorageParticulateTrapping':
-            I = case.inputs
-            if any(I[2][t] * dt + I[3][t] == 0.0 for t in range(0, t0 + 1)):
-                key = 'trapping-nan-zero-volume'
-        if m == 'InstreamFineSediment' and case.params[0] > 1e-8:
-            I, p = case.inputs, case.params
-            if any(I[4][t] == p[0] and p[1] * p[2] == 0.0 for t in range(0, t0 + 1)):
-                key = 'fine-nan-outflow-equals-bankfull'
-        orc.hit(m, 'nan:' + str(key))
-        c.violation(name, dict(base, kind='not-a-number-in-outputs', first_step=t0, outputs=outs, final_states=final), key=key)
-        return key is not None and any(k['key'] == key for k in c.known)
+        orc.hit(m, 'nan')
+        c.violation(name, dict(base, kind='not-a-number-in-outputs', first_step=t0, outputs=outs, final_states=final))
+        return False
     prev = initial_stock_states(case)
     s0 = list(prev)
     cum_in = cum_out = cum_sink = cum_flush = 0.0
@@ -412,20 +403,6 @@ def oracle_case(c, orc, idx, case, ri, traj):
     # ---- classification into known failure classes
     key = None
     kinds = {f[0] for f in fails}
-    if m == 'InstreamFineSediment' and case.params[0] <= 1e-8 and kinds <= {'budget-residual', 'cumulative-budget'}:
-        # is the missing mass exactly the reach-local mass ?
-        prev = s0
-        exact = True
-        for t in range(n):
-            st = traj[t]
-            inflow, outk, sink, wv = terms(case, outs, t)
-            inflow2 = (case.inputs[0][t] + case.inputs[1][t]) * dt
-            r2 = sum(prev) + inflow2 - sum(st) - outk - sink
-            if not (wv < MINVOL) and abs(r2) > tol(sum(prev), inflow2, sum(st), outk) * 4:
-                exact = False
-            prev = st
-        if exact and any(x > 0 for x in case.inputs[2]):
-            key = 'fine-lowbank-drops-reachlocal'
     if m == 'StorageTrapAll' and kinds <= {'budget-residual', 'cumulative-budget'}:
         # the numbers balance when the trapped output is read as a rate: sum trapped = s0 + sum inflow
         lhs = sum(s0) + sum(case.inputs[0])
@@ -461,23 +438,23 @@ def agree(case, ri, rm):
 
 
 def corpus_cases():
-    """the concrete witnesses of the theorems named ..._refuted and the pre-fix crash"""
+    """the witnesses of the repaired defects (must now pass) and of the theorems still named ..._refuted"""
     D = 86400.0
     cs = []
     # D13 (fixed): nil lateral series
     cs.append(Case('StorageDissolvedDecay', [D, 0.0, 1.0, 10.0, 0.0], [10.0], [[1.0, 1.0, 1.0], [1, 1, 1], [0, 0, 1], [0, 0, 100]], D, regime='corpus'))
     cs.append(Case('StorageDissolvedDecay', [D, 0.0, 1.0, 10.0, 0.0], [0.0], [[2.0], [1.0], [1.0], [1000.0]], D, regime='corpus'))
-    # D14: bank-full flow 0 drops reachLocalMass
+    # D14 (fixed 70f6256): bank-full flow 0 dropped reachLocalMass
     cs.append(Case('InstreamFineSediment', [0.0, 0, 0, 10, 1000, 0.001, 2, 0.5, 1.5, 0.04, 1e-3, 1e-3, D], [0.0, 0.0],
                    [[0.0], [0.0], [1.0], [1000.0], [1.0]], D, regime='corpus'))
-    # NaN: outflow == bankFullFlow with no floodplain
+    # (fixed d80779f) NaN: outflow == bankFullFlow with no floodplain
     cs.append(Case('InstreamFineSediment', [10.0, 0.0, 0.0, 5, 1000, 0.001, 2, 0.5, 1.5, 0.04, 1e-5, 1e-4, D], [0.0, 100.0],
                    [[0.01], [0.0], [0.0], [1000.0], [10.0]], D, regime='corpus'))
     cs.append(Case('InstreamFineSediment', [10.0, 0.0, 0.0, 5, 1000, 0.5, 2, 0.5, 1.5, 0.25, 0.125, 0.25, D], [0.0, 100.0],
-                   [[0.5], [0.0], [0.0], [1000.0], [10.0]], D, regime='corpus'))       # = fine_nan_at_bankfull_refuted
-    # NaN: empty reservoir without outflow
+                   [[0.5], [0.0], [0.0], [1000.0], [10.0]], D, regime='corpus'))       # = fine_at_bankfull_no_nan (Coq, float instance)
+    # (fixed 7addb3e) NaN: empty reservoir without outflow
     cs.append(Case('StorageParticulateTrapping', [D, 1e6, 1000, 112, 800, 1.0, -0.2], [10.0], [[1.0, 1.0], [1, 1], [0, 1], [0, 100]], D, regime='corpus'))
-    cs.append(Case('StorageParticulateTrapping', [D, 1e6, 0, 112, 800, 1.0, 0.5], [10.0], [[1.0], [1.0], [0.0], [0.0]], D, regime='corpus'))  # = trapping_nan_on_empty_refuted
+    cs.append(Case('StorageParticulateTrapping', [D, 1e6, 0, 112, 800, 1.0, 0.5], [10.0], [[1.0], [1.0], [0.0], [0.0]], D, regime='corpus'))  # = trapping_empty_reservoir_keeps_mass (Coq, float instance)
     # round-off negative store (= decay_roundoff_negative_refuted)
     cs.append(Case('ConstituentDecay', [0.0, 0.0, D], [0.0], [[0.3], [0.0], [3.0], [3.0], [0.0]], D, regime='corpus'))
     # trap-all: kg/s copied into kg
@@ -486,22 +463,18 @@ def corpus_cases():
 
 
 def binaries(c=None):
-    dev = os.environ.get('C12_BIN_DIR')      # development only: pre-built private binaries, no proofs
-    if dev:
-        return os.path.join(dev, 'owrun'), os.path.join(dev, 'ocaml', 'driver')
+    """(implementation runner, model driver).  Proofs: Check.prove() builds the .vo closure of Properties/C12.v
+    only.  Model: a private driver holding only the c12 kernels.  Implementation: harness/bin/owrun built against
+    /repo's working tree, unless C12_OWRUN names an owrun binary built elsewhere (used to test the check against a
+    mutated PRIVATE copy of /repo without touching /repo)."""
     if c is not None:
-        # build only the dependency closure of Properties/C12.v: a file of another property that does not
-        # compile must not be reported as a C12 failure (vlib.check_theorems calls coq_make() without targets)
-        import vlib
-        full_make = vlib.coq_make
-        vlib.coq_make = lambda targets=None: full_make(targets or ['Properties/C12.vo'])
-        try:
-            c.prove()
-        finally:
-            vlib.coq_make = full_make
-    build_driver()
-    build_harness(['owrun'])
-    return os.path.join(HARNESS, 'bin', 'owrun'), os.path.join(OCAML, 'driver')
+        c.prove()
+    model_bin = build_driver(['c12'])
+    impl_bin = os.environ.get('C12_OWRUN')
+    if not impl_bin:
+        build_harness(['owrun'])
+        impl_bin = os.path.join(HARNESS, 'bin', 'owrun')
+    return impl_bin, model_bin
 
 
 class _ReplayCtx:
@@ -639,7 +612,7 @@ def main():
                      'and the implementation is re-run on every prefix to observe the state after each step; '
                      'non-trivial = at least one positive load in the first two input series')
     chk = None
-    if not quick and not os.environ.get('C12_BIN_DIR'):
+    if not quick:
         # thorough tier: independent re-check of the compiled proofs of the whole dependency closure
         try:
             sh('timeout 2400 coqchk -silent -o -Q . OW OW.Properties.C12', cwd=COQ, timeout=2500)
